@@ -17,7 +17,8 @@ import unified_planning as up
 from unified_planning.model.problem import Problem
 from unified_planning.model.expression import ConstantExpression
 from unified_planning.model.fluent import get_all_fluent_exp
-from typing import Dict, Optional, Iterable, Set, List, Union
+from itertools import chain
+from typing import Dict, Optional, Iterable, Set, List, Tuple, Union
 
 
 class ContingentProblem(Problem):
@@ -135,6 +136,38 @@ class ContingentProblem(Problem):
                     if val is not None:
                         res[f_exp] = val
         return res
+
+    def _get_static_and_unused_fluents(
+        self,
+    ) -> Tuple[
+        Set["up.model.fluent.Fluent"],
+        Set["up.model.fluent.Fluent"],
+        Set["up.model.fluent.Fluent"],
+        Set["up.model.fluent.Fluent"],
+    ]:
+        """
+        Same as in `Problem`; the fluents mentioned by the `or` / `oneof` initial constraints
+        are used, so they are removed from the unused fluents.
+        """
+        (
+            static_fluents,
+            unused_fluents,
+            fluents_in_durations,
+            fluents_in_action_costs,
+        ) = super()._get_static_and_unused_fluents()
+        fve = self._env.free_vars_extractor
+        for constraint in chain(
+            self._or_initial_constraints, self._oneof_initial_constraints
+        ):
+            unused_fluents.difference_update(
+                f.fluent() for e in constraint for f in fve.get(e)
+            )
+        return (
+            static_fluents,
+            unused_fluents,
+            fluents_in_durations,
+            fluents_in_action_costs,
+        )
 
     @property
     def kind(self) -> "up.model.problem_kind.ProblemKind":
